@@ -67,6 +67,13 @@ func c37gRender(v reflect.Value) string {
 		sb.WriteString("]")
 		return sb.String()
 	}
+	if v.Kind() == reflect.Struct {
+		// Resource.GoString dereferences Body: the zero Resource that comes
+		// with an error is rendered by hand
+		if b := v.FieldByName("Body"); b.IsValid() && b.Kind() == reflect.Interface && b.IsNil() {
+			return "Resource{Header: " + c37gRender(v.FieldByName("Header")) + ", Body: nil}"
+		}
+	}
 	p := reflect.New(v.Type())
 	p.Elem().Set(v)
 	if g, ok := p.Interface().(fmt.GoStringer); ok {
